@@ -211,7 +211,9 @@ func hotFunc(top []string, at string) string {
 func runAsm(t *testing.T, data []byte, plan simrt.ReaderPlan, tp *simrt.Tape, cfg gi.SimulatorConfig) *asmRun {
 	r := &asmRun{}
 	r.rd = simrt.NewReader(data, plan, tp)
-	r.out = simrt.Run(t, simrt.Config{Tape: tp, MaxSteps: asmMaxSteps, MaxTicks: asmMaxTicks}, func() {
+	// the budget grows with the input: a slower but linear reader must never
+	// look like a hang (2e6 ticks + 400 per delivered byte)
+	r.out = simrt.Run(t, simrt.Config{Tape: tp, MaxSteps: asmMaxSteps + 8*len(data), MaxTicks: asmMaxTicks + 400*int64(len(data))}, func() {
 		r.w, r.err = gi.CompileWarrior(r.rd, cfg)
 		r.returned = true
 	})
